@@ -807,7 +807,7 @@ static Config make_config(Rng &r, bool thorough)
   c.shutdown_mode           = r.chance(1, 4) ? 1 : 0;
   c.shutdown_threads        = r.chance(1, 2) ? 1 : static_cast<int>(r.range(2, 4));
   c.producers_race_shutdown = r.chance(1, 4);
-  c.flush_races_shutdown    = r.chance(1, 4);
+  c.flush_races_shutdown    = r.chance(1, g_prop == "C02" ? 3 : 4);
   c.post_shutdown_ops       = r.chance(3, 4);
   c.gate                    = r.chance(1, 8) && c.subject < 2 && c.delay_ms <= 50;
   c.extra_processors        = (c.subject == 2 || c.subject == 3) ? static_cast<int>(r.range(0, 2)) : 0;
@@ -1666,7 +1666,7 @@ static void run_history(uint64_t seed, bool thorough)
         // 1..4 ForceFlush callers (indefinite timeouts) queueing up while Shutdown arrives: each must return.
         // Long injected sleeps at the atomic operations open the window between a caller's shutdown check and
         // its ticket increment wide enough for a whole Shutdown to pass through (seeded change C02-w2-2).
-        if ((seed >> 31) & 1)
+        if (g_prop == "C02" ? ((seed >> 31) & 3) != 0 : ((seed >> 31) & 1) != 0)
           vf_configure(seed, c.yield_ppm, std::max(c.sleep_ppm, 80000u), c.cas_ppm, c.wake_ppm, 4000);
         int nf = 1 + static_cast<int>((seed >> 28) & 3);
         for (int f = 0; f < nf; ++f)
